@@ -36,8 +36,8 @@ RULE = (
 )
 ASSUMPTIONS = ["family names without backslash; no spaces or hyphens in names", "colours are 6 hex digits"]
 BUDGET = {"quick": {"random": 1200}, "thorough": {"random": 20000}}
-EXHAUSTIVE_RULE = {"quick": "balanced_wrap: all word-length tuples with <=5 words of length 1..5 x widths 1..14",
-                   "thorough": "balanced_wrap: <=6 words of length 1..5 x widths 1..14"}
+EXHAUSTIVE_RULE = {"quick": "balanced_wrap: all word-length tuples with <=5 words of length 1..5 x widths 1..14; 6 words of which one has 6..10 characters (every position) and the others 1..4, widths 1..12",
+                   "thorough": "balanced_wrap: <=6 words of length 1..5 x widths 1..14; 6..7 words with one long word as in the quick tier"}
 EXHAUSTIVE_COMPLETE = False
 EPS = 2e-3
 
@@ -55,6 +55,16 @@ def run_job(job):
             k += 1
             if k % mod == idx:
                 yield {"_kind": "wrap", "lens": list(lens)}
+    # one word longer than most widths among short ones (the "unless a single word is longer" clause): 6..7 words,
+    # the long one of 6..10 characters at every position, the others of 1..4 characters (1..3 with 7 words), widths 1..12
+    for n in (6, 7) if top >= 6 else (6,):
+        for pos in range(n):
+            for long_len in range(6, 11):
+                for shorts in itertools.product(range(1, 5 if n == 6 else 4), repeat=n - 1):
+                    k += 1
+                    if k % mod == idx:
+                        lens = list(shorts[:pos]) + [long_len] + list(shorts[pos:])
+                        yield {"_kind": "wrap", "lens": lens, "widths": list(range(1, 13))}
 
 
 @st.composite
